@@ -212,7 +212,18 @@ macro_rules! history {
             if let Some(&o) = olds.get(k % olds.len().max(1)) {
                 if (!inst.clear || k < 1) && ch.bit(&format!("in_{}", k)) {
                     wctr += 1;
-                    let old = g.update_edge(NodeIndex::new(o), NodeIndex::new(y), wctr);
+                    // every other insertion goes through add_or_update_edge (the entry point that grows the matrix itself)
+                    let old = if k % 2 == 0 {
+                        match g.add_or_update_edge(NodeIndex::new(o), NodeIndex::new(y), wctr) {
+                            Ok(old) => old,
+                            Err(e) => {
+                                bad.push(format!("add_or_update_edge({},{}) failed on live nodes: {:?}", o, y, e));
+                                None
+                            }
+                        }
+                    } else {
+                        g.update_edge(NodeIndex::new(o), NodeIndex::new(y), wctr)
+                    };
                     let want = m.set(o, y, Some(wctr));
                     if old != want {
                         bad.push(format!("update_edge({},{}) returned {:?}, expected {:?}", o, y, old, want));
